@@ -1,14 +1,16 @@
 (* Property C02 — incremental (warm-cache) runs report exactly what a cold run reports.
-   Only theorem statements closed by `exact`, each followed by Print Assumptions; then Examples showing that
-   the contracts are satisfiable by a concrete, non-trivial instance, and the refutation of the full statement. *)
+   Only theorem statements closed by `exact`, each followed by Print Assumptions; then Examples showing that the
+   contracts are satisfiable, and the refutations of the full statement that PREDICT findings F6, F7, F9. *)
 From Coq Require Import List Bool Arith Lia.
 From C02 Require Import Model Proofs Statement.
 Import ListNotations.
 
 Section Theorems.
   Variable content_of : modid -> stamp -> content.
+  Variable view_of : modid -> stamp -> content.
   Variable imports : modid -> content -> opts -> list modid.
   Variable probes : modid -> content -> opts -> list modid.
+  Variable implicits : modid -> content -> opts -> list modid.
   Variable analyze : list modid -> (modid -> content) -> opts -> (modid -> option ihash) -> modid -> result.
   Variable sccs_of : list (modid * list modid) -> list (list modid).
   Variable reach : list (modid * list modid) -> modid -> modid -> bool.
@@ -16,68 +18,93 @@ Section Theorems.
   Variable thash : list (modid * list modid) -> modid -> nat.
   Variable ign_of : modid -> stamp -> opts -> bool.
   Variable blocker : modid -> content -> bool.
-  (* contract, monitored not proved: the analysis of an SCC is a function of the SET of member sources, the options and
-     the lower interfaces it reads.  No uniqueness assumption about import cycles.  Recorded violations: F10 (member
-     order matters), F9 (implicit reads), F7 (stub-ness is not part of the hashed source). *)
-  Hypothesis AC : AnalysisContract imports probes analyze.
+  (* contract, monitored not proved: the analysis of an SCC is a function of the SET of member sources (as SEEN: text and
+     kind), the options and the lower interfaces it reads.  No uniqueness assumption.  Recorded violation: F10. *)
+  Hypothesis AC : AnalysisContract imports probes implicits analyze.
   Hypothesis GC : GraphContract analyze sccs_of reach thash.
 
-  Notation CacheOK := (CacheOK content_of imports probes analyze reach thash blocker).
-  Notation SideOK := (SideOK content_of imports probes sccs_of ign_of).
-  Notation HistOK := (HistOK content_of imports probes analyze sccs_of reach sdo_of thash ign_of blocker).
-  Notation warm := (warm content_of imports probes analyze sccs_of reach sdo_of thash ign_of blocker).
-  Notation cold := (cold content_of imports probes analyze sccs_of reach sdo_of thash ign_of blocker).
-  Notation runs := (runs content_of imports probes analyze sccs_of reach sdo_of thash ign_of blocker).
+  Notation CacheOK := (CacheOK content_of view_of imports probes implicits analyze reach thash blocker).
+  Notation SideOK := (SideOK content_of view_of imports probes implicits sccs_of reach ign_of).
+  Notation ProgOK := (ProgOK content_of view_of imports probes implicits sccs_of reach ign_of).
+  Notation HistOK := (HistOK content_of view_of imports probes implicits analyze sccs_of reach sdo_of thash ign_of blocker).
+  Notation warm := (warm content_of view_of imports probes analyze sccs_of reach sdo_of thash ign_of blocker).
+  Notation cold := (cold content_of view_of imports probes analyze sccs_of reach sdo_of thash ign_of blocker).
+  Notation runs := (runs content_of view_of imports probes analyze sccs_of reach sdo_of thash ign_of blocker).
+  Notation run := (run content_of view_of imports probes analyze sccs_of reach sdo_of thash ign_of).
 
-  (* every run (also an aborted one) keeps the invariant: every entry was produced by ONE analysis call on exactly the
-     inputs its hashes name, and the members of a call are written together (provenance) *)
   Theorem run_preserves_CacheOK : forall c fs o now,
     CacheOK c -> GenBound c now -> SideOK c o fs -> Proofs.FSOK fs ->
     CacheOK (snd (warm c fs o now)) /\ GenBound (snd (warm c fs o now)) (S now).
-  Proof. exact (p_run_preserves content_of imports probes analyze sccs_of reach sdo_of thash ign_of blocker AC GC). Qed.
+  Proof. exact (p_run_preserves content_of view_of imports probes implicits analyze sccs_of reach sdo_of thash ign_of blocker AC GC). Qed.
 
-  (* warm = cold from ANY cache satisfying the invariant, under the two decidable side conditions *)
+  (* SideOK c o fs = ProbeFresh (F6) /\ KindStable (F7) /\ ImplicitStable (F9) /\ SccFresh (F11); ProgOK o fs = the
+     program has no dangling implicit submodule reference (F9, cold side).  All decidable, see below. *)
   Theorem warm_eq_cold : forall c fs o n n',
-    CacheOK c -> GenBound c n -> SideOK c o fs -> Proofs.FSOK fs ->
+    CacheOK c -> GenBound c n -> SideOK c o fs -> ProgOK o fs -> Proofs.FSOK fs ->
     output fs (warm c fs o n) = output fs (cold fs o n').
-  Proof. exact (p_warm_eq_cold content_of imports probes analyze sccs_of reach sdo_of thash ign_of blocker AC GC). Qed.
+  Proof. exact (p_warm_eq_cold content_of view_of imports probes implicits analyze sccs_of reach sdo_of thash ign_of blocker AC GC). Qed.
 
-  (* all finite histories (cycles, aborted runs, option changes) along which the side conditions hold *)
   Theorem warm_eq_cold_all_histories_partial : forall (h : list (FS * opts)) (fs : FS) (o : opts) (n' : nat),
-    HistOK empty_store 0 h -> SideOK (runs empty_store 0 h) o fs -> Proofs.FSOK fs ->
+    HistOK empty_store 0 h -> SideOK (runs empty_store 0 h) o fs -> ProgOK o fs -> Proofs.FSOK fs ->
     output fs (warm (runs empty_store 0 h) fs o (length h)) = output fs (cold fs o n').
-  Proof. exact (p_history_partial content_of imports probes analyze sccs_of reach sdo_of thash ign_of blocker AC GC). Qed.
+  Proof. exact (p_history_partial content_of view_of imports probes implicits analyze sccs_of reach sdo_of thash ign_of blocker AC GC). Qed.
 
-  (* the side conditions are decidable predicates of (cache, options, files): Model.probe_fresh / Model.scc_stable *)
+  (* after a run the source hash, interface hash and effective error_lines recorded for every module of the program are a
+     function of (files, options): they do not depend on the cache the run started from *)
+  Theorem cache_is_function_of_inputs : forall c1 c2 fs o n1 n2,
+    CacheOK c1 -> GenBound c1 n1 -> SideOK c1 o fs -> CacheOK c2 -> GenBound c2 n2 -> SideOK c2 o fs ->
+    Proofs.FSOK fs -> NB content_of blocker fs ->
+    forall m s e1 x1 e2 x2, lookup fs m = Some s ->
+      s_meta (snd (run c1 fs o n1)) m = Some e1 -> s_ex (snd (run c1 fs o n1)) m = Some x1 ->
+      s_meta (snd (run c2 fs o n2)) m = Some e2 -> s_ex (snd (run c2 fs o n2)) m = Some x2 ->
+      m_hash e1 = m_hash e2 /\ m_ihash e1 = m_ihash e2 /\
+      (if ign_of m s o then [] else x_errors x1) = (if ign_of m s o then [] else x_errors x2).
+  Proof. exact (p_cache_function content_of view_of imports probes implicits analyze sccs_of reach sdo_of thash ign_of blocker AC GC). Qed.
+
+  (* the side conditions are decidable predicates of (cache, options, files) *)
   Theorem probe_fresh_decides : forall c o fs,
-    probe_fresh content_of probes ign_of c o fs = true -> ProbeFresh content_of probes ign_of c o fs.
-  Proof. exact (probe_fresh_sound content_of probes ign_of). Qed.
+    probe_fresh content_of view_of probes ign_of c o fs = true -> ProbeFresh content_of view_of probes ign_of c o fs.
+  Proof. exact (probe_fresh_sound content_of view_of probes ign_of). Qed.
+  Theorem kind_stable_decides : forall c o fs,
+    kind_stable content_of view_of ign_of c o fs = true -> KindStable content_of view_of ign_of c o fs.
+  Proof. exact (kind_stable_sound content_of view_of ign_of). Qed.
+  Theorem implicit_stable_decides : forall c o fs,
+    NoDup (concat (sccs_of (depmap content_of view_of imports probes ign_of c o fs))) ->
+    implicit_stable content_of view_of imports probes implicits sccs_of reach ign_of c o fs = true ->
+    ImplicitStable content_of view_of imports probes implicits sccs_of reach ign_of c o fs.
+  Proof. exact (implicit_stable_sound content_of view_of imports probes implicits sccs_of reach ign_of). Qed.
   Theorem scc_stable_decides : forall c o fs,
-    scc_stable content_of imports probes sccs_of ign_of c o fs = true ->
-    SccFresh content_of imports probes sccs_of ign_of c o fs.
-  Proof. exact (scc_stable_sound content_of imports probes sccs_of ign_of). Qed.
+    scc_stable content_of view_of imports probes sccs_of ign_of c o fs = true ->
+    SccFresh content_of view_of imports probes sccs_of ign_of c o fs.
+  Proof. exact (scc_stable_sound content_of view_of imports probes sccs_of ign_of). Qed.
 End Theorems.
 
 Print Assumptions run_preserves_CacheOK.
 Print Assumptions warm_eq_cold.
 Print Assumptions warm_eq_cold_all_histories_partial.
+Print Assumptions cache_is_function_of_inputs.
 Print Assumptions probe_fresh_decides.
+Print Assumptions kind_stable_decides.
+Print Assumptions implicit_stable_decides.
 Print Assumptions scc_stable_decides.
 
-(* ------------------------------------------------------------------ the hypotheses are satisfiable *)
-Definition ex_content_of (m : modid) (s : stamp) : content := s.
-Definition ex_imports (m : modid) (c : content) (o : opts) : list modid := if Nat.even c then [] else [c / 2].
-Definition ex_probes (m : modid) (c : content) (o : opts) : list modid := if Nat.eqb c 6 then [3] else [].
-Definition ex_noprobes (m : modid) (c : content) (o : opts) : list modid := [].
-(* diagnostics depend on the interfaces of the imported / probed modules: of co-members through their sources, of lower
-   modules through the environment *)
-Definition ex_analyze (pr : modid -> content -> opts -> list modid)
+(* ------------------------------------------------------------------ instances *)
+(* a stamp s encodes (text, kind): text = s / 2, kind = s mod 2 (0 = .py, 1 = .pyi); the analysis sees the whole stamp *)
+Definition ex_content_of (m : modid) (s : stamp) : content := s / 2.
+Definition ex_view_of (m : modid) (s : stamp) : content := s.
+Definition ex_imports (m : modid) (v : content) (o : opts) : list modid := if Nat.even v then [] else [v / 2].
+Definition ex_probes (m : modid) (v : content) (o : opts) : list modid := if Nat.eqb v 6 then [3] else [].
+Definition ex_implicits (m : modid) (v : content) (o : opts) : list modid := if Nat.eqb v 12 then [3] else [].
+Definition ex_none (m : modid) (v : content) (o : opts) : list modid := [].
+Definition vis (env : modid -> option ihash) (d : modid) : bool := match env d with Some _ => true | None => false end.
+Definition ex_analyze (pr im : modid -> content -> opts -> list modid)
            (S0 : list modid) (src : modid -> content) (o : opts) (env : modid -> option ihash) (m : modid) : result :=
   {| r_iface := S (src m);
      r_errors := map (fun d => if mem d S0 then S (src d) else match env d with Some h => h | None => 0 end)
-                     (ex_imports m (src m) o ++ pr m (src m) o);
-     r_indirect := [] |}.
+                     ((ex_imports m (src m) o ++ pr m (src m) o) ++ im m (src m) o);
+     r_indirect := filter (fun d => negb (mem d S0) && negb (Nat.eqb d m) && vis env d) (im m (src m) o) |}.
 Definition ex_sccs (dm : list (modid * list modid)) : list (list modid) := [map fst dm].
+Definition ex_sccs2 (dm : list (modid * list modid)) : list (list modid) := map (fun p => [fst p]) (rev dm).
 Definition ex_reach (dm : list (modid * list modid)) (m d : modid) : bool := false.
 Definition ex_thash (dm : list (modid * list modid)) (m : modid) : nat := 0.
 Definition ex_sdo (l : list modid) (o : opts) : nat := length l.
@@ -89,27 +116,36 @@ Proof.
   intros l [|a L1] S0 L2 H; simpl in H; inversion H; auto.
   exfalso. eapply app_cons_not_nil; eauto.
 Qed.
-
 Fact mem_equiv : forall d (a b : list modid), (forall x, In x a <-> In x b) -> mem d a = mem d b.
 Proof.
   intros. destruct (mem d a) eqn:A; destruct (mem d b) eqn:B; auto.
   - apply mem_In in A. apply H in A. apply mem_In in A. congruence.
   - apply mem_In in B. apply H in B. apply mem_In in B. congruence.
 Qed.
+Fact filter_ext_in' : forall (f g : modid -> bool) l, (forall a, In a l -> f a = g a) -> filter f l = filter g l.
+Proof. induction l; simpl; intros; auto. rewrite H by auto. destruct (g a); [f_equal|]; auto. Qed.
 
-Example analysis_contract_satisfiable : forall pr, AnalysisContract ex_imports pr (ex_analyze pr).
+Example analysis_contract_satisfiable : forall pr im, AnalysisContract ex_imports pr im (ex_analyze pr im).
 Proof.
-  intros pr. constructor.
+  intros pr im. constructor.
   - intros S0 S' src src' o env env' EQ SRC RD m Hm. unfold ex_analyze. rewrite <- (SRC m Hm). f_equal.
-    apply map_ext_in. intros d Hd. rewrite <- (mem_equiv d S0 S' EQ). destruct (mem d S0) eqn:M.
-    + apply mem_In in M. rewrite (SRC d M). auto.
-    + rewrite (RD m d Hm); auto. split. apply mem_false; auto. left; auto.
-  - simpl; tauto.
-  - simpl; tauto.
+    + apply map_ext_in. intros d Hd. rewrite <- (mem_equiv d S0 S' EQ). destruct (mem d S0) eqn:M.
+      * apply mem_In in M. rewrite (SRC d M). auto.
+      * rewrite (RD m d Hm); auto. split. apply mem_false; auto.
+        apply in_app_or in Hd as [Hd|Hd]; [left|right; left]; auto.
+    + apply filter_ext_in'. intros d Hd. rewrite <- (mem_equiv d S0 S' EQ). destruct (mem d S0) eqn:M; auto. simpl.
+      unfold vis. rewrite (RD m d Hm); auto. split. apply mem_false; auto. right; left; auto.
+  - intros S0 src o env m d Hm Hd. simpl in Hd. apply filter_In in Hd as [_ Hd].
+    apply andb_true_iff in Hd as [_ Hd]. right. unfold vis in Hd. destruct (env d); congruence.
+  - intros S0 src o env m Hd. simpl in Hd. apply filter_In in Hd as [_ Hd].
+    apply andb_true_iff in Hd as [Hd _]. apply andb_true_iff in Hd as [_ Hd]. rewrite Nat.eqb_refl in Hd. discriminate.
   - simpl; intros; discriminate.
+  - intros S0 src o env m d Hm Hd HnS Hv. right. simpl. apply filter_In. split; auto.
+    apply mem_false in HnS. rewrite HnS. simpl. unfold vis. destruct (env d) eqn:E; try congruence. rewrite andb_true_r.
+    apply negb_true_iff. apply Nat.eqb_neq. intro; subst. apply mem_false in HnS. auto.
 Qed.
 
-Example graph_contract_satisfiable : forall pr, GraphContract (ex_analyze pr) ex_sccs ex_reach ex_thash.
+Example graph_contract_satisfiable : forall pr, GraphContract (ex_analyze pr ex_none) ex_sccs ex_reach ex_thash.
 Proof.
   intros pr. constructor.
   - intros dm [ND CL]. unfold ex_sccs. split; [|split].
@@ -123,49 +159,74 @@ Proof.
 Qed.
 
 Definition ex_o := {| o_snap := 1; o_version := 1; o_plugin := 0 |}.
-Definition ex_fs1 : FS := [(5, 5); (2, 8)].    (* module 5 (content 5) imports module 2 *)
-Definition ex_fs2 : FS := [(5, 5); (2, 10)].   (* module 2 edited *)
-Definition ex_fs3 : FS := [(5, 5); (2, 99)].   (* module 2 has a syntax error *)
+Definition W pr im sccs := warm ex_content_of ex_view_of ex_imports pr (ex_analyze pr im) sccs ex_reach ex_sdo ex_thash ex_ign ex_blocker.
+Definition Cold pr im sccs := cold ex_content_of ex_view_of ex_imports pr (ex_analyze pr im) sccs ex_reach ex_sdo ex_thash ex_ign ex_blocker.
 
-(* a concrete history: an edit changes the diagnostics of an unchanged module; a syntax error aborts the run and leaves
-   the cache usable; the side conditions hold (decided by computation) *)
+(* a history on which everything is fine: an edit changes the diagnostics of an unchanged module, a syntax error
+   (text 99 = stamp 198) aborts a run and leaves the cache usable; all side conditions evaluate to true *)
+Definition ex_fs1 : FS := [(5, 5); (2, 8)].
+Definition ex_fs2 : FS := [(5, 5); (2, 10)].
+Definition ex_fs3 : FS := [(5, 5); (2, 198)].
 Example ex_history_outputs :
-  let W := warm ex_content_of ex_imports ex_noprobes (ex_analyze ex_noprobes) ex_sccs ex_reach ex_sdo ex_thash ex_ign ex_blocker in
-  let c1 := snd (W empty_store ex_fs1 ex_o 0) in
-  let c2 := snd (W c1 ex_fs2 ex_o 1) in
-  let c3 := snd (W c2 ex_fs3 ex_o 2) in
-  (output ex_fs1 (W empty_store ex_fs1 ex_o 0), output ex_fs2 (W c1 ex_fs2 ex_o 1),
-   output ex_fs3 (W c2 ex_fs3 ex_o 2), output ex_fs2 (W c3 ex_fs2 ex_o 3),
-   scc_stable ex_content_of ex_imports ex_noprobes ex_sccs ex_ign c1 ex_o ex_fs2,
-   probe_fresh ex_content_of ex_noprobes ex_ign c1 ex_o ex_fs2)
+  let c1 := snd (W ex_none ex_none ex_sccs empty_store ex_fs1 ex_o 0) in
+  let c2 := snd (W ex_none ex_none ex_sccs c1 ex_fs2 ex_o 1) in
+  let c3 := snd (W ex_none ex_none ex_sccs c2 ex_fs3 ex_o 2) in
+  (output ex_fs1 (W ex_none ex_none ex_sccs empty_store ex_fs1 ex_o 0), output ex_fs2 (W ex_none ex_none ex_sccs c1 ex_fs2 ex_o 1),
+   output ex_fs3 (W ex_none ex_none ex_sccs c2 ex_fs3 ex_o 2), output ex_fs2 (W ex_none ex_none ex_sccs c3 ex_fs2 ex_o 3),
+   scc_stable ex_content_of ex_view_of ex_imports ex_none ex_sccs ex_ign c1 ex_o ex_fs2,
+   probe_fresh ex_content_of ex_view_of ex_none ex_ign c1 ex_o ex_fs2,
+   kind_stable ex_content_of ex_view_of ex_ign c1 ex_o ex_fs2,
+   implicit_stable ex_content_of ex_view_of ex_imports ex_none ex_none ex_sccs ex_reach ex_ign c1 ex_o ex_fs2)
   = (Some ([(5, Some [9]); (2, Some [])], true), Some ([(5, Some [11]); (2, Some [])], true),
-     None, Some ([(5, Some [11]); (2, Some [])], true), true, true).
+     None, Some ([(5, Some [11]); (2, Some [])], true), true, true, true, true).
 Proof. vm_compute. reflexivity. Qed.
 
-(* ------------------------------------------------------------------ the FULL statement is refuted by the faithful model *)
-(* F6: `from pkg import name` (module 1, content 6, probes module 3) while pkg/name.py (module 3) does not exist; then it
-   is added.  Module 1's cached lists mention module 3 nowhere, so module 1 is judged fresh and its old diagnostics are
-   replayed; `probe_fresh` is false on that step, i.e. the side condition of the positive theorem detects it. *)
-Definition ex_sccs2 (dm : list (modid * list modid)) : list (list modid) := map (fun p => [fst p]) (rev dm).
+(* ------------------------------------------------------------------ the FULL statement is refuted: F6, F7, F9 *)
+Definition refuted pr im (h : list (FS * opts)) (fs : FS) : Prop :=
+  output fs (W pr im ex_sccs2 (runs ex_content_of ex_view_of ex_imports pr (ex_analyze pr im) ex_sccs2 ex_reach ex_sdo ex_thash
+                                   ex_ign ex_blocker empty_store 0 h) fs ex_o (length h))
+  <> output fs (Cold pr im ex_sccs2 fs ex_o 0).
 
+(* F6 (hand history 9001): module 1 = `from pkg import name` (view 6 probes module 3 = pkg.name); pkg/name.py is added *)
+Theorem F6_predicted : refuted ex_probes ex_none [([(1, 6)], ex_o)] [(1, 6); (3, 4)].
+Proof. unfold refuted. vm_compute. discriminate. Qed.
+(* F7 (hand history 9013): module 1 (view 5) imports module 2; b.py (stamp 8 = text 4, kind .py) is replaced by b.pyi
+   (stamp 9 = the same text 4, kind .pyi): validate_meta accepts the old entry by hash *)
+Theorem F7_predicted : refuted ex_none ex_none [([(1, 5); (2, 8)], ex_o)] [(1, 5); (2, 9)].
+Proof. unfold refuted. vm_compute. discriminate. Qed.
+(* F9 (hand history 9015, abstract form): module 1 (view 12) refers implicitly to module 3; whether it resolves depends on
+   module 3 having been analysed before; the entry written while it did not resolve records nothing about module 3 *)
+Theorem F9_predicted : refuted ex_none ex_implicits [([(1, 12)], ex_o)] [(1, 12); (3, 4)].
+Proof. unfold refuted. vm_compute. discriminate. Qed.
+Print Assumptions F6_predicted.
+Print Assumptions F7_predicted.
+Print Assumptions F9_predicted.
+
+(* ... and each refutation is caught by its decidable side condition on exactly that step *)
+Example refutations_caught_by_side_conditions :
+  let c6 := snd (W ex_probes ex_none ex_sccs2 empty_store [(1, 6)] ex_o 0) in
+  let c7 := snd (W ex_none ex_none ex_sccs2 empty_store [(1, 5); (2, 8)] ex_o 0) in
+  let c9 := snd (W ex_none ex_implicits ex_sccs2 empty_store [(1, 12)] ex_o 0) in
+  (probe_fresh ex_content_of ex_view_of ex_probes ex_ign c6 ex_o [(1, 6); (3, 4)],
+   kind_stable ex_content_of ex_view_of ex_ign c7 ex_o [(1, 5); (2, 9)],
+   implicit_stable ex_content_of ex_view_of ex_imports ex_none ex_implicits ex_sccs2 ex_reach ex_ign c9 ex_o [(1, 12); (3, 4)])
+  = (false, false, false).
+Proof. vm_compute. reflexivity. Qed.
+
+(* the full statement of Statement.v is therefore false for an instance satisfying the analysis contract *)
 Theorem warm_equals_cold_refuted :
-  exists content_of imports probes analyze sccs_of reach sdo_of thash ign_of blocker,
-    AnalysisContract imports probes analyze /\
-    ~ warm_equals_cold_for_all_histories content_of imports probes analyze sccs_of reach sdo_of thash ign_of blocker.
+  exists content_of view_of imports probes implicits analyze sccs_of reach sdo_of thash ign_of blocker,
+    AnalysisContract imports probes implicits analyze /\
+    ~ warm_equals_cold_for_all_histories content_of view_of imports probes analyze sccs_of reach sdo_of thash ign_of blocker.
 Proof.
-  exists ex_content_of, ex_imports, ex_probes, (ex_analyze ex_probes), ex_sccs2, ex_reach, ex_sdo, ex_thash, ex_ign, ex_blocker.
+  exists ex_content_of, ex_view_of, ex_imports, ex_none, ex_none, (ex_analyze ex_none ex_none), ex_sccs2, ex_reach, ex_sdo, ex_thash,
+         ex_ign, ex_blocker.
   split; [apply analysis_contract_satisfiable|].
-  intro H. specialize (H [([(1, 6)], ex_o)] [(1, 6); (3, 4)] ex_o 0).
-  assert (A : forall fs' o', In (fs', o') [([(1, 6)], ex_o)] -> Statement.FSOK fs').
-  { intros fs' o' [X|[]]. inversion X; subst. repeat constructor; simpl; tauto. }
-  assert (B : Statement.FSOK [(1, 6); (3, 4)]).
+  intro H. specialize (H [([(1, 5); (2, 8)], ex_o)] [(1, 5); (2, 9)] ex_o 0).
+  assert (A : forall fs' o', In (fs', o') [([(1, 5); (2, 8)], ex_o)] -> Statement.FSOK fs').
+  { intros fs' o' [X|[]]. inversion X; subst. repeat constructor; simpl; intuition; discriminate. }
+  assert (B : Statement.FSOK [(1, 5); (2, 9)]).
   { repeat constructor; simpl; intuition; discriminate. }
-  specialize (H A B). vm_compute in H. discriminate.
+  specialize (H A B). apply F7_predicted. exact H.
 Qed.
 Print Assumptions warm_equals_cold_refuted.
-
-Example refutation_is_caught_by_side_condition :
-  let c1 := snd (warm ex_content_of ex_imports ex_probes (ex_analyze ex_probes) ex_sccs2 ex_reach ex_sdo ex_thash ex_ign ex_blocker
-                      empty_store [(1, 6)] ex_o 0) in
-  probe_fresh ex_content_of ex_probes ex_ign c1 ex_o [(1, 6); (3, 4)] = false.
-Proof. vm_compute. reflexivity. Qed.
